@@ -1,8 +1,14 @@
 """C03: every supported training password is reproduced by the trained grammar;
 probabilities sum to 1.  End to end: real trainer.py (subprocess) -> rule
 directory -> real guesser (skip_brute) run to exhaustion -> language.
-Model side: EndToEnd.v composes the component models (C02 run, C04 expansion,
-mask round trip)."""
+Model side: Pipeline.v is ONE executable model of the whole chain (trainer
+passes, counters, probability lists, files, the guesser's loaders with
+skip_brute, the next algorithm, the expansion); PipelineProofs.v proves the
+property over it.  Correspondence: on the small training lists the model
+itself is executed by vm_compute (binary64 instance, finite repr/float()
+tables) and compared with what the real trainer -> guesser produced: the
+loaded grammar (every group), the base-structure list and the multiset of all
+guesses.  EndToEnd.v's mask round trip is still checked on every alpha tile."""
 import json
 import os
 
@@ -12,11 +18,24 @@ import trainer_io
 from props.C04 import collect
 
 ID = "C03"
-TRUSTED = ["the composition theorem is as strong as its components: segmentation (C05), counters and files (C06), loaders (C07), "
-           "next (C02), expansion (C04); here they are exercised together on the real code",
-           "str.upper()/lower() tables of the interpreter (case_ok is evaluated per password by the harness)"]
-ASSUMES = ["domain of the property: every letter of the password has a one-to-one upper/lower mapping (case_ok)",
-           "structure without e-mail / website segment"]
+TRUSTED = ["C03_reproduced is ONE theorem over ONE executable pipeline model (coq/theories/Pipeline.v: check_valid, multi-word pass, "
+           "detectors, counters, probability lists, Markov pseudo-count, file names and config lists, the text files, the guesser's "
+           "terminal and base-structure loaders with skip_brute, the next algorithm for any heap meeting pop_ok_okb, the expansion); "
+           "the model is tied to the source by executing it (vm_compute, binary64, finite repr/float() tables of the interpreter) on "
+           "the small training lists and comparing with the real trainer -> guesser: every loaded group, the base-structure list, "
+           "the multiset of guesses",
+           "oracles assumed by C03_reproduced (PipelineDisk.io_ok): float(repr(p)) == p for finite p >= 0 with repr over 0-9.e+-infa, "
+           "the ruleset encoding encodes ASCII, the training passwords and the lower case of what it encodes",
+           "not modelled: OMEN training and its files (with skip_brute they only have to load), config.ini through configparser/json "
+           "(section -> name/directory table is Counters.config_dirs + Pipeline.guesser_sections, exercised by the correspondence), "
+           "decoding of the training file (C19: the model starts from the decoded lines)",
+           "str.upper()/lower()/isalpha()/isdigit()/isupper() tables of the interpreter (gen/Unicode_gen.v; per case for the "
+           "characters of the case); case_ok is also evaluated per password by the harness"]
+ASSUMES = ["domain of the property: every letter of the password has a one-to-one upper/lower mapping (case_ok_pw)",
+           "structure without e-mail / website segment (supported_pw)",
+           "binary64 instance: the computable check f64_arith_ok on the run's own counters (finite counts not above their total, "
+           "P(M) < 1 in binary64, rescaled base probabilities finite; evaluated on every case by the correspondence); the exact-"
+           "rational instance (C03_reproduced_exact, C03_sum_one_Q) needs only 0 < coverage <= 1"]
 
 
 def case_ok(pw):
@@ -32,6 +51,64 @@ def case_ok(pw):
             if c.isalpha() and c.upper() != c and (len(c.upper()) != 1 or c.upper().lower() != c):
                 return False
     return True
+
+
+RULE_DIRS = ("Alpha", "Capitalization", "Digits", "Other", "Keyboard", "Years", "Context")
+
+
+def pipeline_case(passwords, enc, cov, g, tree, all_lines):
+    """One case for PipelineCorr.check_pipeline: the inputs of the model and what the real code produced."""
+    import seg_gen
+    T = trainer_io
+    chars = set("".join(passwords))
+    for _ in range(2):
+        chars |= set("".join(c.lower() + c.upper() for c in chars))
+    facts = seg_gen.unicode_facts(sorted(chars))
+    extra = T.clist(facts, lambda f: "(%d%%N, Build_cinfo %s %s %s %s %s)" % (
+        f[0], common.cbool(f[1]), common.cbool(f[2]), common.cbool(f[3]), T.cs(f[4]), T.cs(f[5])), "(N * cinfo)")
+    floats, ptab, texts = [], {}, []
+    for rel, data in sorted(tree.items()):
+        d = rel.split(os.sep)[0]
+        if d in RULE_DIRS:
+            text = data.decode(enc)
+        elif rel == os.path.join("Grammar", "grammar.txt"):
+            text = data.decode("ascii")
+        else:
+            continue
+        texts.append(text)
+        ptab.update(T.pfloat_table(text))
+        for _, ptxt in T.parse_rule_file(data, enc if d in RULE_DIRS else "ascii"):
+            floats.append(float(ptxt))
+    unenc = T.unencodable_chars("".join(texts) + "".join(chars), enc)
+    gram = [(name, [(grp["values"], grp["prob"]) for grp in groups])
+            for name, groups in g.grammar.items() if name[:1] not in ("M", "E", "W")]
+    bases = [(b["prob"], b["replacements"]) for b in g.base]
+    cgram = T.clist(gram, lambda e: T.cpair(T.cs(e[0]), T.clist(e[1], lambda gr: T.cpair(T.cstrs(gr[0]), T.cf(gr[1])),
+                                                                 "(list str * float)")),
+                    "(str * list (list str * float))")
+    cbases = T.clist(bases, lambda b: T.cpair(T.cf(b[0]), T.cstrs(b[1])), "(float * list str)")
+    exp = "(Some (%s, %s, %s))" % (cgram, cbases, T.cstrs(sorted(all_lines)))
+    return ("{| pk_extra := %s; pk_raw := %s; pk_cov := %s; pk_repr := %s; pk_pfloat := %s; pk_unenc := %s; "
+            "pk_abort := %s; pk_exp := %s |}" % (
+                extra, T.cstrs(passwords), T.cf(cov), T.repr_table(floats), T.c_pfloat_table(ptab),
+                T.clist(unenc, T.cN, "N"), common.cbool(T.surrogate_reason_aborts(enc)), exp))
+
+
+# fixed lists at the edges of the trainer's comparisons (always run through the model):
+# words seen exactly threshold (5) times next to their concatenation; a word one below the threshold; minimal
+# multi-word length; a keyboard walk of the minimal length; years at both ends of a digit run; coverage 1
+CRAFTED = [
+    (["pass"] * 5 + ["word"] * 5 + ["password", "PassWord1", "wordpass!"], "utf-8", 0.6),
+    (["love"] * 4 + ["monkey"] * 5 + ["lovemonkey", "monkeylove", "Monkey12"], "utf-8", 1.0),
+    (["1qaz", "1qaz2wsx", "qwer", "zxcvbn1", "19991", "a2019", "2019a", "x#1", "#12"], "utf-8", 0.9),
+]
+
+PIPE_HEADER = ["From Coq Require Import List NArith ZArith Bool Floats.",
+               "From Pcfg Require Import Str TextFile Counters IoCorr Pipeline PipelineCorr.",
+               "Import ListNotations.", "Open Scope float_scope.", "Open Scope N_scope.", ""]
+DIAG = {1: "one side has no loadable ruleset", 2: "the loaded grammar (terminal groups) differs",
+        3: "the base-structure list differs", 4: "the multiset of guesses differs",
+        5: "model and implementation agree but the float sanity check f64_arith_ok (hypothesis of C03_reproduced_F64) is false on this run"}
 
 
 def segment_all(passwords):
@@ -74,13 +151,18 @@ def run(ctx):
             "encodings": {}, "coverage": {}, "train_failed": 0, "max_sum_deviation": 0.0, "kinds": {}}
     nontrivial, seen = 0, set()
     cases = []
-    for i in range(nlists):
+    pipe_cases = []
+    dist["pipeline_model_runs"] = 0
+    for i in range(nlists + len(CRAFTED)):
         enc = ctx.rng.choice(["utf-8", "utf-8", "latin-1", "cp1251"])
         cov = ctx.rng.choice([0.3, 0.6, 0.9, 0.95, 1.0])
         ngram = ctx.rng.choice([2, 3, 4])
         entries = trainer_io.gen_entries(ctx.rng, enc, n_distinct=ctx.rng.randint(3, 12))
         passwords = trainer_io.flatten(entries)
-        if enc == "utf-8" and i % 3 == 0:
+        if i >= nlists:
+            passwords, enc, cov = CRAFTED[i - nlists]
+            passwords = list(passwords)
+        if enc == "utf-8" and i % 3 == 0 and i < nlists:
             # letters whose case folding differs from their lower case but whose case mapping is one-to-one
             # (Cherokee small letters), Greek and Cyrillic with capitals, a word with a final sigma (outside the domain)
             # ... and capitals whose TITLE case differs from their upper case (Georgian Mtavruli, the dz/lj/nj digraphs)
@@ -133,6 +215,7 @@ def run(ctx):
             dist["too_large"] += 1
             continue
         lang = {}
+        all_lines = []
         total = 0.0
         nguess = 0
         too_big = False
@@ -141,6 +224,7 @@ def run(ctx):
             if res is None:
                 vio.append({"sig": "C03:expansion-raised", "what": "create_guesses raised on %r" % (it["pt"],), "replay": replay})
                 continue
+            all_lines += res[0]
             for s in res[0]:
                 lang[s] = lang.get(s, 0.0) + it["prob"]
             total += it["prob"] * res[1]
@@ -151,6 +235,12 @@ def run(ctx):
         if too_big:
             dist["too_large"] += 1
             continue
+        # the pipeline MODEL on the same list (small lists: the model runs inside coqc)
+        if (len(set(passwords)) <= 14 and len(passwords) <= 60 and nguess <= 1500 and len(pipe_cases) < ctx.scale(24, 200)
+                and not any(trainer_io.is_hex_shaped(p) or trainer_io.has_linebreak(p) or "\r" in p or "\n" in p
+                            for p in passwords)):
+            pipe_cases.append((pipeline_case(passwords, enc, cov, g, tree, all_lines), replay))
+            dist["pipeline_model_runs"] += 1
         segs = segment_all(passwords)
         # what actually reaches the trainer: the reader may reject some lines (C19); take the accepted ones
         for p in dict.fromkeys(passwords):
@@ -203,8 +293,29 @@ def run(ctx):
                "Definition cases : list (str * list (N * (str * str * bool))) := [", ";\n".join(lits), "].",
                "Eval vm_compute in (failing check_mask_roundtrip cases)."]
         shards.append(("m%03d" % (s // per), "\n".join(src)))
+    pper = 2
+    pindex = {}
+    for s0 in range(0, len(pipe_cases), pper):
+        chunk = pipe_cases[s0:s0 + pper]
+        src = list(PIPE_HEADER)
+        src.append("Definition cases : list pipe_case := [\n%s\n]." % ";\n".join(c for c, _ in chunk))
+        src.append("Eval vm_compute in (map (fun kc => (fst kc * 10 + diagnose (snd kc))%nat) "
+                   "(filter (fun kc => negb (check_pipeline (snd kc))) (combine (seq 0 (length cases)) cases))).")
+        nm = "p%03d" % (s0 // pper)
+        shards.append((nm, "\n".join(src)))
+        pindex[nm] = chunk
     corr = []
     for name, idx, log in common.run_case_shards("C03", shards):
+        if name in pindex:
+            if idx is None:
+                corr.append(("pipeline:" + name, False, "shard did not compile: " + log[-800:]))
+            elif idx:
+                k, why = idx[0] // 10, idx[0] % 10
+                corr.append(("pipeline:" + name, False, "the pipeline model (Pipeline.v, binary64) and the real trainer -> guesser "
+                             "differ: %s; first case: %s" % (DIAG.get(why, "?"), json.dumps(pindex[name][k][1], default=str)[:600])))
+            else:
+                corr.append(("pipeline:" + name, True, "%d training lists" % len(pindex[name])))
+            continue
         if idx is None:
             corr.append(("mask-roundtrip:" + name, False, log[-800:]))
         elif idx:
@@ -216,7 +327,10 @@ def run(ctx):
             "their two-word tails, non-ASCII spaces / format / private-use characters, e-mails, websites, duplicates) in utf-8 / latin-1 / cp1251, coverage 0.3 / 0.6 / 1, n-gram 2-4; "
             "real trainer.py subprocess, real guesser with skip_brute run to exhaustion, whole language enumerated; every supported training "
             "password must be in it and the probabilities must sum to 1 (1e-9); non-trivial = password with >= 2 segments, capitals or "
-            "non-ASCII; distinct by (password, encoding)")
+            "non-ASCII; distinct by (password, encoding).  Lists with <= 14 distinct passwords and <= 1500 guesses, plus three fixed lists "
+            "at the edges of the trainer's comparisons, are also run through the pipeline MODEL inside coqc (binary64, repr/float() "
+            "tables of the interpreter): loaded grammar, base structures and the multiset of guesses must coincide with the real "
+            "trainer -> guesser, and the float sanity check f64_arith_ok of C03_reproduced must hold")
     return {"evaluations": dist["passwords"], "distinct_nontrivial": nontrivial, "rule": rule, "samples": samples,
             "corr": corr, "violations": vio, "dist": dist}
 
